@@ -18,8 +18,8 @@ RULE = (
     "widths 1-5 (all value1, value2); the six *_vec_* functions for lengths 1-7 of 1-bit elements, lengths 1-4 of "
     "2-bit plain/signed/ArrayLayout/StructLayout elements, lengths 1-3 of 3-bit elements (generic vec: lengths 1-3, "
     "element width <= 2), placeholders none/constant/signal, sequences given as python lists and as ArrayLayout "
-    "views.  Hypothesis: widths/lengths up to 9 (scalars up to 24 bits), element widths up to 5, offset signals up to "
-    "2 bits wider than needed.  non-trivial = at least two distinct expected results compared; labels count offset "
+    "views.  Hypothesis: widths/lengths up to 9 (scalars up to 24 bits), element widths up to 5, offset signals from 2 bits narrower (then only the offsets "
+    "the signal can encode are evaluated) to 2 bits wider than needed.  non-trivial = at least two distinct expected results compared; labels count offset "
     "classes (0, == width, in between) per case"
 )
 ASSUMPTIONS = [
@@ -96,7 +96,7 @@ def make_spec(t, p) -> Spec:
             # "sg": the shifted bit vector is handed over as a signed value (a ValueLike like any other; what is
             # promised is the bit pattern of the result)
             val = Signal(signed(w) if p.get("sg") else w, name="value")
-            off = Signal(bits_for(w) + offx, name="offset")
+            off = Signal(max(1, bits_for(w) + offx), name="offset")
             ins = [("value", val), ("offset", off)]
             fn = getattr(_S(), t)
             if kind == "generic":
@@ -113,7 +113,8 @@ def make_spec(t, p) -> Spec:
                 out = fn(val, off, C(1 if ph == "const1" else 0, 1))
             return m, ins, [(t, out)]
 
-        rng = [1 << w, w + 1]
+        # a narrow offset signal (offx < 0, e.g. Signal(range(width)) as WideFifo's column index) encodes fewer offsets
+        rng = [1 << w, min(w + 1, 1 << max(1, bits_for(w) + offx))]
         if kind == "generic":
             rng.append(1 << w)
         elif ph == "signal":
@@ -156,7 +157,7 @@ def make_spec(t, p) -> Spec:
             m = Module()
             sh = shape()
             d1 = [Signal(sh, name=f"d{i}") for i in range(n)]
-            off = Signal(bits_for(n) + offx, name="offset")
+            off = Signal(max(1, bits_for(n) + offx), name="offset")
             ins = [(f"d{i}", s) for i, s in enumerate(d1)]
             ins.append(("offset", off))
             fn = getattr(_S(), t)
@@ -181,7 +182,7 @@ def make_spec(t, p) -> Spec:
                 info["shape_ok"] = all(len(Value.cast(o)) == ew for o in out)
             return m, ins, [(f"r{i}", Value.cast(o).as_unsigned()) for i, o in enumerate(out)]
 
-        rng = [1 << ew] * n + [n + 1]
+        rng = [1 << ew] * n + [min(n + 1, 1 << max(1, bits_for(n) + offx))]
         if kind == "generic":
             rng += [1 << ew] * n
         elif ph == "signal":
@@ -226,10 +227,12 @@ def enumerate_cases(tier):
                 cases.append(_case(t, w=w, ph=ph, offx=0))
                 cases.append(_case(t, w=w, ph=ph, offx=0, sg=1))
             cases.append(_case(t, w=w, ph="signal", offx=1))
+            cases.append(_case(t, w=w, ph="const1", offx=-1))
         for t in ("rotate_left", "rotate_right"):
             cases.append(_case(t, w=w, offx=0))
             cases.append(_case(t, w=w, offx=1))
             cases.append(_case(t, w=w, offx=0, sg=1))
+            cases.append(_case(t, w=w, offx=-1))
     for w in range(1, 6):
         for t in ("generic_shift_left", "generic_shift_right"):
             cases.append(_case(t, w=w, offx=0))
@@ -264,7 +267,7 @@ def strategy(draw, tier="quick"):
         t = draw(st.sampled_from(SCALAR))
         lo = 6 if t.startswith("generic") else 8
         p = {"w": draw(st.integers(lo, 24)), "ph": draw(st.sampled_from(["default", "const0", "const1", "signal"])),
-             "offx": draw(st.integers(0, 2)), "sg": draw(st.sampled_from([0, 0, 1, 2]))}
+             "offx": draw(st.sampled_from([-2, -1, -1, 0, 0, 1, 2])), "sg": draw(st.sampled_from([0, 0, 1, 2]))}
     else:
         t = draw(st.sampled_from(VEC))
         p = {
@@ -274,7 +277,7 @@ def strategy(draw, tier="quick"):
             "ph": draw(st.sampled_from(["none", "const", "signal"])),
             "phc": draw(st.integers(0, 31)),
             "cont": draw(st.sampled_from(["list", "list", "view"])),
-            "offx": draw(st.integers(0, 2)),
+            "offx": draw(st.sampled_from([-2, -1, -1, 0, 0, 1, 2])),
         }
     spec = make_spec(t, p)
     full_below = FULL_SPACE if tier == "thorough" else 1 << 11
@@ -292,7 +295,9 @@ def run_case(case) -> Result:
             res.labels.append(f"placeholder={ph}")
     elif _kind(t) == "shift":
         res.labels.append(f"placeholder={p.get('ph', 'default')}")
-    if p.get("offx", 0):
+    if p.get("offx", 0) > 0:
         res.labels.append("wide-offset-signal")
+    if p.get("offx", 0) < 0:
+        res.labels.append("narrow-offset-signal")
     run_spec(res, f"{t}{p}", make_spec(t, p), case["vals"])
     return res
